@@ -74,7 +74,7 @@ func (e *Exec) intrinsic(name string, fn *types.Func, recvExpr ast.Expr, call *a
 	case "fmt.Sprintf", "fmt.Sprint", "fmt.Sprintln":
 		args := e.evalArgs(call.Args, c)
 		return []Term{e.sprintf(args, c.st)}, true
-	case "fmt.Errorf", "errors.New":
+	case "fmt.Errorf", "errors.New", "errors.Join":
 		e.evalArgs(call.Args, c)
 		id := e.vc.FreshConst("err", "Int")
 		return []Term{{fmt.Sprintf("(A_box %d %s)", e.vc.Tag("*errors.errorString"), id), tAny}}, true
@@ -356,7 +356,34 @@ func (e *Exec) lock(recvExpr ast.Expr, c *Ctx, call *ast.CallExpr) {
 		e.advanceTime(st, "0")
 	}
 	e.monitorInv(m, owner, st, c.fr, false, "")
+	mkey := owner.T.Name + "." + mu + "@" + owner.S
+	if e.mode == "conc" {
+		if rel, ok := e.relSnap[mkey]; ok {
+			e.monitorRely(m, owner, st, rel, c.fr, false, "")
+		}
+	}
 	e.lockSnap = st.clone()
+	e.acqSnap[mkey] = e.lockSnap
+}
+
+// monitorRely: the two-state guarantee of every critical section (asserted at release against the state at
+// the acquire; assumed at a later acquire against the state at this thread's previous release).
+func (e *Exec) monitorRely(m *Monitor, owner Term, st *State, old *State, fr *Frame, assert bool, pos string) {
+	pk := e.prog.pkgs[m.PkgPath]
+	cfr := &Frame{pkg: pk, names: map[string]string{}, ntypes: map[string]*Type{}, closures: map[string]*ast.FuncLit{}}
+	if pk != nil {
+		cfr.info = pk.TypesInfo
+	}
+	for _, rl := range m.Rely {
+		sc := &Ctx{st: st, fr: cfr, spec: true, bound: map[string]Term{m.Self: owner}, old: old}
+		phi := e.evalCond(rl.Expr, sc)
+		if assert {
+			name := fmt.Sprintf("%s#guarantee[%s.%s:%s]", e.fnName, shortStructName(m.Struct), m.Mutex, rl.Label)
+			e.assert(st, name, "monitor-guarantee", phi, rl.Text, pos, e.modelVars(st, fr))
+		} else {
+			e.assume(st, phi)
+		}
+	}
 }
 
 func (e *Exec) unlock(recvExpr ast.Expr, c *Ctx, call *ast.CallExpr) {
@@ -371,6 +398,11 @@ func (e *Exec) unlock(recvExpr ast.Expr, c *Ctx, call *ast.CallExpr) {
 	if m != nil {
 		e.safetyAssert(c, "unlock-held", fmt.Sprintf("(select %s %s)", h.S, owner.S), exprText(recvExpr), call)
 		e.monitorInv(m, owner, st, c.fr, true, e.prog.pos(call))
+		mkey := owner.T.Name + "." + mu + "@" + owner.S
+		if acq, ok := e.acqSnap[mkey]; ok && len(m.Rely) > 0 {
+			e.monitorRely(m, owner, st, acq, c.fr, true, e.prog.pos(call))
+		}
+		e.relSnap[mkey] = st.clone()
 	}
 	e.set(st, "$held!"+owner.T.Name+"."+mu, Term{fmt.Sprintf("(store %s %s false)", h.S, owner.S), h.T})
 	hw := e.heldArr(st, owner.T.Name, mu+"!w")
@@ -456,6 +488,9 @@ type Effects struct {
 	heap   map[string]*Type // heap key -> type of the heap array
 	all    bool
 	time   bool
+	// maps written directly in the loop body through a stable expression: only their rows are havocked
+	mapExprs []ast.Expr
+	mapTypes []*Type
 }
 
 func (e *Exec) effectsOf(fr *Frame, nodes ...ast.Node) *Effects {
@@ -540,7 +575,12 @@ func (e *Exec) lhsEffect(x ast.Expr, info *types.Info, subst map[*types.TypePara
 		}
 		bt := e.prog.TypeOf(tv.Type, subst)
 		if bt.K == KMap {
-			e.mapEffect(bt, ef)
+			if local && !hasCall(l.X) {
+				ef.mapExprs = append(ef.mapExprs, l.X)
+				ef.mapTypes = append(ef.mapTypes, bt)
+			} else {
+				e.mapEffect(bt, ef)
+			}
 			return
 		}
 		e.lhsEffect(l.X, info, subst, ef, local)
@@ -708,6 +748,14 @@ func (e *Exec) callEffects(call *ast.CallExpr, info *types.Info, subst map[*type
 		}
 		return
 	}
+	// static type of the receiver expression: instantiates generic receivers of the callee
+	e.effRecvType, e.effSubst = nil, subst
+	if recvExpr != nil {
+		if tv, ok := info.Types[recvExpr]; ok {
+			e.effRecvType = tv.Type
+		}
+	}
+	defer func() { e.effRecvType = nil }()
 	if ct := e.prog.contractFor(fn); ct != nil && !(ct.Inline && ct.Kind == "func") {
 		e.contractEffects(ct, fn, fn.Type().(*types.Signature), ef)
 		return
@@ -745,7 +793,11 @@ func (e *Exec) contractEffects(ct *Contract, fn *types.Func, sig *types.Signatur
 	var args []Term
 	if sig != nil {
 		if sig.Recv() != nil {
-			rt := e.prog.TypeOf(sig.Recv().Type(), nil)
+			rgt := sig.Recv().Type()
+			if e.effRecvType != nil {
+				rgt = instantiateRecv(rgt, e.effRecvType, e.effSubst)
+			}
+			rt := e.prog.TypeOf(rgt, e.effSubst)
 			recv = &Term{"0", rt}
 		} else if ct.Kind == "field" {
 			// receiver of a field contract: the struct owning the field; typed by name lookup
@@ -837,8 +889,58 @@ func (e *Exec) havocEffects(st *State, fr *Frame, ef *Effects) {
 			e.havocKey(st, k, t)
 		}
 	}
+	// row-level havoc for maps written through an expression that the loop does not change
+	var rowMaps []Term
+	for i, mx := range ef.mapExprs {
+		stable := true
+		ast.Inspect(mx, func(n ast.Node) bool {
+			if id, ok := n.(*ast.Ident); ok {
+				obj := fr.info.Uses[id]
+				if obj == nil {
+					obj = fr.info.Defs[id]
+				}
+				if v, ok := obj.(*types.Var); ok && !v.IsField() {
+					if _, assigned := ef.locals[e.keyOf(v)]; assigned {
+						stable = false
+					}
+				}
+			}
+			if se, ok := n.(*ast.SelectorExpr); ok {
+				// a field path: stable only if that field array is not written in the loop
+				if tv, ok := fr.info.Types[se.X]; ok {
+					bt := e.prog.TypeOf(tv.Type, fr.subst)
+					if bt.K == KRef && bt.Name != "" {
+						if _, written := ef.heap[heapKey(bt.Name, se.Sel.Name)]; written {
+							stable = false
+						}
+					}
+				}
+			}
+			return true
+		})
+		if !stable || ef.all {
+			e.mapEffect(ef.mapTypes[i], ef)
+			continue
+		}
+		saved := e.safety
+		e.safety = false
+		mv := e.eval(mx, &Ctx{st: st, fr: fr})
+		e.safety = saved
+		rowMaps = append(rowMaps, mv)
+	}
 	for k, t := range ef.heap {
 		e.havocKey(st, k, t)
+	}
+	for _, mv := range rowMaps {
+		if _, whole := ef.heap["MD!"+mapKeyName(e, mv.T)]; whole {
+			continue
+		}
+		da := e.mapDomArr(st, mv.T)
+		va := e.mapValArr(st, mv.T)
+		nd := e.vc.FreshConst("loop_dom", fmt.Sprintf("(Array %s Bool)", e.Sort(mv.T.Key)))
+		nv := e.vc.FreshConst("loop_val", fmt.Sprintf("(Array %s %s)", e.Sort(mv.T.Key), e.Sort(mv.T.Elem)))
+		e.set(st, "MD!"+mapKeyName(e, mv.T), Term{fmt.Sprintf("(store %s %s %s)", da.S, mv.S, nd), da.T})
+		e.set(st, "MV!"+mapKeyName(e, mv.T), Term{fmt.Sprintf("(store %s %s %s)", va.S, mv.S, nv), va.T})
 	}
 	if ef.time {
 		e.advanceTime(st, "0")
@@ -859,4 +961,38 @@ func isClockIface(fn *types.Func) bool {
 		return false
 	}
 	return n.Obj().Name() == "Clock" || n.Obj().Name() == "ClockI"
+}
+
+// instantiateRecv: the callee's (generic) receiver type instantiated with the type arguments of the static type of the
+// receiver expression at the call (Cache[string,RetryState] => *MemoryCache[string,RetryState]).
+func instantiateRecv(calleeRecv types.Type, static types.Type, subst map[*types.TypeParam]types.Type) types.Type {
+	st := static
+	if p, ok := st.(*types.Pointer); ok {
+		st = p.Elem()
+	}
+	sn, ok := types.Unalias(st).(*types.Named)
+	if !ok || sn.TypeArgs() == nil || sn.TypeArgs().Len() == 0 {
+		return calleeRecv
+	}
+	var targs []types.Type
+	for i := 0; i < sn.TypeArgs().Len(); i++ {
+		targs = append(targs, resolve(sn.TypeArgs().At(i), subst))
+	}
+	base := calleeRecv
+	isPtr := false
+	if pt, ok := base.(*types.Pointer); ok {
+		base, isPtr = pt.Elem(), true
+	}
+	nn, ok := types.Unalias(base).(*types.Named)
+	if !ok || nn.Origin().TypeParams().Len() != len(targs) {
+		return calleeRecv
+	}
+	it, err := types.Instantiate(nil, nn.Origin(), targs, false)
+	if err != nil {
+		return calleeRecv
+	}
+	if isPtr {
+		return types.NewPointer(it)
+	}
+	return it
 }
